@@ -219,6 +219,33 @@ pub fn real(args: &[String]) {
     }, &["file:moved:x", "dir:"]);
     step("directory deletion", &|| std::fs::remove_dir(r.join("made")).unwrap(), &["dir:"]);
     drop(rx);
+    // a root given through a symbolic link: the watcher reports paths under the root AS GIVEN
+    {
+        let link = root.parent().unwrap().join(format!("watchlink-{}", std::process::id()));
+        let _ = std::fs::remove_file(&link);
+        if std::os::unix::fs::symlink(&root, &link).is_ok() {
+            let (tx, rx) = w::test_channel();
+            let mut b = FsWatcherBuilder::new().expect("watcher");
+            b.watch(link.clone()).expect("watch");
+            b.build(tx);
+            std::thread::sleep(std::time::Duration::from_millis(200));
+            rep.cases += 1;
+            std::fs::write(link.join("keep.x"), b"v7").unwrap();
+            let deadline = std::time::Instant::now() + std::time::Duration::from_secs(3);
+            let mut seen: BTreeSet<String> = BTreeSet::new();
+            while std::time::Instant::now() < deadline && !seen.contains("file:keep:x") {
+                for x in rx.drain().into_iter().flatten() {
+                    seen.insert(ent_json(&x));
+                }
+                std::thread::sleep(std::time::Duration::from_millis(20));
+            }
+            if !seen.contains("file:keep:x") {
+                rep.mismatch(json!({"what":"a modification under a root given through a symbolic link was not named","seen":seen}));
+            }
+            drop(rx);
+            let _ = std::fs::remove_file(&link);
+        }
+    }
     let _ = std::fs::remove_dir_all(&root);
     rep.print();
 }
